@@ -1,1 +1,4 @@
 import MpfVerif.Props.C19
+import MpfVerif.Props.C08
+import MpfVerif.Props.C01
+import MpfVerif.Props.C02
